@@ -101,6 +101,7 @@ type Exec struct {
 	inRequires    bool
 	lkRequired    map[string]bool
 	lkInit        map[string]bool
+	lhInit        map[string]bool
 }
 
 type frame struct {
@@ -1087,7 +1088,7 @@ func (ex *Exec) enterLoop(f *frame, st *State, h *ssa.BasicBlock, li *loopInfo, 
 	for _, c := range mods {
 		if c == "*" {
 			for _, k := range sortedKeys(ex.V.compSorts) {
-				if k != compAlloc && !strings.HasPrefix(k, "LK:") && !strings.HasPrefix(k, "LA:") && !strings.HasPrefix(k, "G:") {
+				if k != compAlloc && !strings.HasPrefix(k, "LK:") && !(strings.HasPrefix(k, "LA:") || strings.HasPrefix(k, "LH:")) && !strings.HasPrefix(k, "G:") {
 					ex.loopHavoc(st, k)
 				}
 			}
